@@ -21,6 +21,7 @@ type Ctx struct {
 	reps   map[string]sliceRep
 	splits map[string][2]chunk
 	refine map[string]sliceRep
+	uOf    map[string]string // signed term -> its unsigned (two's complement) representation
 }
 
 // Obl is one proof obligation.
@@ -45,7 +46,7 @@ type Obl struct {
 }
 
 func newCtx() *Ctx {
-	c := &Ctx{cons: map[string]string{}, maxv: map[string]*big.Int{}, lowz: map[string]int{}, decls: map[string]bool{}, reps: map[string]sliceRep{}, splits: map[string][2]chunk{}, refine: map[string]sliceRep{}}
+	c := &Ctx{cons: map[string]string{}, maxv: map[string]*big.Int{}, lowz: map[string]int{}, decls: map[string]bool{}, reps: map[string]sliceRep{}, splits: map[string][2]chunk{}, refine: map[string]sliceRep{}, uOf: map[string]string{}}
 	c.lines = append(c.lines,
 		"(define-sort HP () (Array Int (Array Int Int)))",
 		"(declare-fun tag (Int) Int)",
@@ -210,12 +211,21 @@ func (c *Ctx) wrap(e string, l leaf) string {
 		if mx := c.getMax(e); mx != nil && mx.Cmp(m) < 0 {
 			return e // known to lie in [0, 2^bits): no wrap
 		}
-		r := c.I("(mod %s %s)", e, m)
+		if _, ok := isLit(e); ok || l.bits < 64 {
+			r := c.I("(mod %s %s)", e, m)
+			c.setMax(r, new(big.Int).Sub(m, big.NewInt(1)))
+			return r
+		}
+		// the in-range case first: lets the solver split instead of reasoning through mod
+		r := c.I("(ite (and (<= 0 %s) (< %s %s)) %s (mod %s %s))", e, e, m, e, e, m)
 		c.setMax(r, new(big.Int).Sub(m, big.NewInt(1)))
 		return r
 	}
 	h := pow2(l.bits - 1)
-	return c.I("(- (mod (+ %s %s) %s) %s)", e, h, m, h)
+	if l.bits < 64 {
+		return c.I("(- (mod (+ %s %s) %s) %s)", e, h, m, h)
+	}
+	return c.I("(ite (and (<= (- %s) %s) (< %s %s)) %s (- (mod (+ %s %s) %s) %s))", h, e, e, h, e, e, h, m, h)
 }
 
 func (c *Ctx) inRange(e string, l leaf) string {
